@@ -796,7 +796,7 @@ package genetics
 //@ spec adjF(f float64, debt int, age int, sig float64, n int) real = clampF(boostF(penF(f, debt), age, sig)) / real(n)
 //@ spec debtOf(s *Species, opts *neat.Options) int = ((s.Age - s.AgeOfLastImprovement + 1) - opts.DropOffAge) == 0 ? 1 : ((s.Age - s.AgeOfLastImprovement + 1) - opts.DropOffAge)
 //@ func (*Species).adjustFitness
-//@   props C09
+//@   props C09 C10
 //@   ufarith
 //@   mode nosafety
 //@   requires s != nil && opts != nil && len(s.Organisms) > 0 && (forall i :: 0 <= i && i < len(s.Organisms) ==> s.Organisms[i] != nil)
